@@ -468,6 +468,9 @@ structure ConstsOk (K : Consts) : Prop where
   sortKeys : K.sortKeys = true
   /-- a successful call without a status of its own answers 200 -/
   okStatus : K.R.srvInitialStatus = 200
+  /-- the reserved parameter names, as bytes and as the routing model's strings -/
+  finderStr : strOf K.pFinder = K.R.paramFinder
+  actionStr : strOf K.pAction = K.R.paramAction
   /-- the members of the collection envelope, in the order the sorting writer emits them -/
   elemMeta : bytesLt K.fElements K.fMetadata = true
   metaPaging : bytesLt K.fMetadata K.fPaging = true
@@ -699,6 +702,121 @@ theorem lookup_client_absent (ps : List (Bytes × Bytes)) (h : ∀ e ∈ ps, Pai
   intro e he hek
   obtain ⟨x, hx, rfl⟩ := List.mem_map.1 he
   exact hk x ((mem_sortByKey ps x).1 hx) (strOf_injective hek)
+
+/-! ## the method kind's demands, met by the client's own query -/
+
+open Restli.Routing in
+/-- what a resource description and its registration must agree on (the generator emits both from
+one restspec): the method is registered on the node at the level the description says, entity-level
+methods exist on collections only, a simple resource has the five methods a simple resource can have -/
+structure SpecOk (r : ResSpec) (node : Node) : Prop where
+  known : r.method.kind ≠ .unknown
+  coll : node.isCollection = (lastKeyTy r.segs).isSome
+  needs : node.isCollection = true → needsEntity r.method.kind = true → r.method.onEntity = true
+  forbids : node.isCollection = true → forbidsEntity r.method.kind = true → r.method.onEntity = false
+  simpleLevel : node.isCollection = false → r.method.onEntity = false
+  simpleKinds : node.isCollection = false →
+    r.method.kind = .get ∨ r.method.kind = .update ∨ r.method.kind = .delete ∨ r.method.kind = .partial_update ∨
+      r.method.kind = .action
+  finderReg : r.method.kind = .finder → node.finders.contains (strOf r.method.name) = true
+  actionReg : r.method.kind = .action → node.actions.lookup (strOf r.method.name) = some r.method.onEntity
+  plainReg : r.method.kind ≠ .finder → r.method.kind ≠ .action → node.methods.contains r.method.kind = true
+  nameNe : r.method.kind = .finder ∨ r.method.kind = .action → r.method.name ≠ []
+
+theorem hasKeyAt_eq (onEntity : Bool) (segs : List SegSpec) :
+    hasKeyAt onEntity segs = (onEntity && (lastKeyTy segs).isSome) := rfl
+
+theorem verbs_simple : verbOfBytes (verbBytes .get) = .GET ∧ verbOfBytes (verbBytes .update) = .PUT ∧
+    verbOfBytes (verbBytes .delete) = .DELETE ∧ verbOfBytes (verbBytes .partial_update) = .POST ∧
+    verbOfBytes (verbBytes .action) = .POST := by decide +kernel
+
+open Restli.Routing in
+/-- **`KindOk` for the client's own query.** If description and registration agree (`SpecOk`) and the
+query the client wrote carries the finder / action name under `q` / `action` — and no `action`
+parameter otherwise on a simple resource — then the request meets everything routing asks of the
+method kind. `pairs` are the parameter pairs before sorting and joining. -/
+theorem kindOk_of_pairs (K : Consts) (hK : ConstsOk K) (r : ResSpec) (node : Node) (hs : SpecOk r node)
+    (pairs : Option (List (Bytes × Bytes))) (hclean : ∀ e ∈ pairs.getD [], PairClean e)
+    (hn : ((sortByKey (pairs.getD [])).map (·.1)).Nodup)
+    (hfinder : r.method.kind = .finder → (K.pFinder, r.method.name) ∈ pairs.getD [])
+    (haction : r.method.kind = .action → (K.pAction, r.method.name) ∈ pairs.getD [])
+    (hnoaction : r.method.kind ≠ .action → ∀ e ∈ pairs.getD [], e.1 ≠ K.pAction) :
+    KindOk K r node (stringQuery ((pairs.map joinQuery).getD [])) := by
+  have hq : stringQuery ((pairs.map joinQuery).getD []) = stringQuery (joinQuery (pairs.getD [])) := by
+    cases pairs with
+    | none => simp [stringQuery_nil, joinQuery, sortByKey, joinWith]
+    | some ps => rfl
+  rw [hq]
+  have look := fun k v hm => lookup_client_pair (pairs.getD []) hclean hn k v hm
+  have absent := fun k hk => lookup_client_absent (pairs.getD []) hclean k hk
+  refine ⟨hs.known, ?_, ?_, ?_, ?_, ?_, hs.plainReg⟩
+  · intro hc hne
+    rw [hasKeyAt_eq, hs.needs hc hne, ← hs.coll, hc]; rfl
+  · intro hc hf
+    rw [hasKeyAt_eq, hs.forbids hc hf]; rfl
+  · intro hc
+    rcases hs.simpleKinds hc with h | h | h | h | h
+    · rw [h]; simp [simpleMethod, verbs_simple.1]
+    · rw [h]; simp [simpleMethod, verbs_simple.2.1]
+    · rw [h]; simp [simpleMethod, verbs_simple.2.2.1]
+    · have hna : r.method.kind ≠ .action := by rw [h]; decide
+      have := absent K.pAction (hnoaction hna)
+      rw [hK.actionStr] at this
+      rw [h]; simp [simpleMethod, verbs_simple.2.2.2.1, this]
+    · have := look K.pAction r.method.name (haction h)
+      rw [hK.actionStr] at this
+      have hne : strOf r.method.name ≠ "" := by
+        intro e
+        have : r.method.name = [] := strOf_injective (by rw [e]; rfl)
+        exact hs.nameNe (Or.inr h) this
+      rw [h]; simp [simpleMethod, verbs_simple.2.2.2.2, this, hne]
+  · intro h
+    have := look K.pFinder r.method.name (hfinder h)
+    rw [hK.finderStr] at this
+    exact ⟨by simp [this], hs.finderReg h⟩
+  · intro h
+    have := look K.pAction r.method.name (haction h)
+    rw [hK.actionStr] at this
+    refine ⟨by simp [this], ?_⟩
+    rw [hs.actionReg h, hasKeyAt_eq]
+    cases hc : node.isCollection with
+    | true => rw [← hs.coll, hc]; simp
+    | false => rw [hs.simpleLevel hc]; rfl
+
+/-- the generated client writes the finder name under `q` and the action name under `action` -/
+theorem queryPairs_reserved (K : Consts) (env : Env) (r : ResSpec) (c : Call) (pairs : Option (List (Bytes × Bytes)))
+    (h : queryPairs K env r c = some pairs) (hne : r.method.name ≠ [])
+    (hesc : K.queryEsc r.method.name = r.method.name) :
+    (r.method.kind = .finder → (K.pFinder, r.method.name) ∈ pairs.getD []) ∧
+    (r.method.kind = .action → (K.pAction, r.method.name) ∈ pairs.getD []) := by
+  have hstr : ror2Str K.queryEsc r.method.name = r.method.name := by
+    have he : r.method.name.isEmpty = false := by
+      cases hn : r.method.name with
+      | nil => exact absurd hn hne
+      | cons a b => rfl
+    simp [ror2Str, he, hesc]
+  constructor
+  · intro hk
+    simp only [queryPairs, hk] at h
+    cases hp : r.method.params with
+    | none =>
+      simp only [hp, Option.some.injEq] at h
+      subst h; simp
+    | some n =>
+      simp only [hp] at h
+      cases hc : c.params with
+      | none => simp [hc] at h
+      | some v =>
+        simp only [hc] at h
+        cases hpp : paramPairs K env n v with
+        | none => simp [hpp] at h
+        | some ps =>
+          simp only [hpp, Option.map_some, Option.some.injEq] at h
+          subst h
+          simp [hstr]
+  · intro hk
+    simp only [queryPairs, hk, Option.some.injEq] at h
+    subst h; simp
 
 /-! ## the client's own request -/
 
